@@ -177,7 +177,7 @@ func c12(x *mon.Ctx) {
 		w.Q.Chain = b.Q.Chain
 		reentrantCollaborators(x, "reentrant-getter", honest, w.Case(world.LColl, "chain-of-an-untrusted-lookalike-pki", fmt.Sprint("reentrant-getter", k)))
 		w = b.Clone()
-		w.Roots = a.Roots
+		w.Roots, w.Times = a.Roots, a.Times // judged by the verifier that trusts a's world, at a's instants
 		reentrantCollaborators(x, "reentrant-getter", honest, w.Case(world.LColl, "quote-entirely-from-an-untrusted-pki", fmt.Sprint("reentrant-getter", k)))
 	}
 	x.Require("reentrant-getter", 0, 16, 24)
